@@ -20,6 +20,13 @@ PROPERTIES = {}
 PROPERTIES["C27"] = dict(
     title="Redirects never reach internal addresses or leak credentials",
     level="model_checking",
+    level_text=("Bounded model checking of the compiled classifier: CBMC decides the equality 'implementation == prefix table "
+                "of the property' for ALL 2^32 IPv4 and ALL 2^128 IPv6 addresses (complete, loop-free), and the host-string "
+                "helpers for every ASCII host up to the stated length. This is the right level because the risky inputs are "
+                "single prefixes/masks (one /10, one mapped form) that sampling does not hit."),
+    level_note=("Kernel-level claim: covers the address/host classification every redirect target passes through, not the "
+                "Location-header URL parsing, the hop loop or header stripping (http/url crates: heap-heavy, did not scale). "
+                "Trusted: Kani MIR->goto translation, CBMC, CaDiCaL; oracle table transcribed from the property text."),
     scope=("Kernel-level: the address classifier that every redirect target passes through "
            "(ipv4_is_non_global / ipv6_is_non_global / ip_is_non_global, with the std::net predicates "
            "as compiled) and the host-string helpers (normalize_host, looks_like_obfuscated_ip)."),
